@@ -12,6 +12,17 @@ def crc24q(data):
     return crc & 0xFFFFFF
 
 
+def crc24_variant(data, init, poly):
+    crc = init
+    for b in data:
+        crc ^= b << 16
+        for _ in range(8):
+            crc <<= 1
+            if crc & 0x1000000:
+                crc ^= 0x1000000 | poly
+    return crc & 0xFFFFFF
+
+
 def mk_frame(payload, resv=0):
     L = len(payload)
     assert L <= 1023
